@@ -69,12 +69,19 @@ func (x *Exec) oblige(st *State, name string, goal *Term, what string) {
 	if n := x.oblCount[full]; n > 1 || x.pathNaming[full] {
 		x.pathNaming[full] = true
 	}
-	o := &Obligation{name: full, props: props, contract: ct, goal: goal, what: what, path: x.oblCount[full], inputs: x.curInputs}
-	o.assume = x.assumptions(st)
-	o.apps = st.apps
-	o.entry = x.entryState
-	o.skolems = x.curSkolems
-	x.obls = append(x.obls, o)
+	assume := x.assumptions(st)
+	goals := []*Term{goal}
+	if x.splitGoals {
+		goals = splitGoal(goal, 0)
+	}
+	for _, gl := range goals {
+		o := &Obligation{name: full, props: props, contract: ct, goal: gl, what: what, path: x.oblCount[full], inputs: x.curInputs}
+		o.assume = assume
+		o.apps = st.apps
+		o.entry = x.entryState
+		o.skolems = x.curSkolems
+		x.obls = append(x.obls, o)
+	}
 }
 
 // assumptions assembles the hypothesis set valid at st: path condition,
@@ -189,7 +196,7 @@ func (x *Exec) candidates(st *State, apps []appRec, t types.Type) []Value {
 	s, ok := t.Underlying().(*types.Struct)
 	if ok {
 		for _, a := range apps {
-			if !strings.HasPrefix(a.fn, "Ev_") || len(a.args) != s.NumFields() {
+			if !(strings.HasPrefix(a.fn, "Ev_") || a.fn == "evalpt") || len(a.args) != s.NumFields() {
 				continue
 			}
 			el := make([]Value, len(a.args))
@@ -207,7 +214,7 @@ func (x *Exec) candidates(st *State, apps []appRec, t types.Type) []Value {
 	}
 	if _, ok := sortOf(t); ok {
 		for _, a := range apps {
-			if strings.HasPrefix(a.fn, "Ev_") || strings.HasPrefix(a.fn, "sqrt") || len(a.args) != 1 {
+			if strings.HasPrefix(a.fn, "Ev_") || a.fn == "evalpt" || strings.HasPrefix(a.fn, "sqrt") || len(a.args) != 1 {
 				continue
 			}
 			k := fmt.Sprintf("%d", a.args[0].id)
@@ -279,8 +286,20 @@ func (x *Exec) modularContracts(fn *ssa.Function) []*Contract {
 func (x *Exec) applyContract(st *State, fn *ssa.Function, cts []*Contract, args []Value) []Out {
 	res := fn.Signature.Results()
 	vals := make([]Value, res.Len())
+	var flatArgs []*Term
+	pure := true
+	for _, a := range args {
+		if !flatten(a, &flatArgs) {
+			pure = false
+		}
+	}
 	for i := 0; i < res.Len(); i++ {
-		vals[i] = x.havocResult(st, res.At(i).Type(), "ret$"+fn.Name())
+		if pure && !isErrorType(res.At(i).Type()) {
+			// pure function of scalar arguments: equal arguments give equal results
+			vals[i] = x.ufResult(st, fmt.Sprintf("ret_%s#%d", sanitize(fn.Name()), i), res.At(i).Type(), flatArgs)
+		} else {
+			vals[i] = x.havocResult(st, res.At(i).Type(), "ret$"+fn.Name())
+		}
 	}
 	for _, ct := range cts {
 		env := &Env{vars: map[string]Value{}, pkg: x.pkgByNm[ct.pkg]}
@@ -296,8 +315,13 @@ func (x *Exec) applyContract(st *State, fn *ssa.Function, cts []*Contract, args 
 		}
 		bindResults(env, fn, vals)
 		for _, cl := range ct.ensures {
-			t := x.evalClause(st, env, cl)
-			st.assume(t)
+			if len(cl.vars) > 0 {
+				// quantified postcondition: becomes an instantiable schema for the caller
+				x.schemaCtr++
+				x.schemas = append(x.schemas, &schema{vars: cl.vars, expr: cl.expr, env: env, text: fmt.Sprintf("%s@%d:%s", ct.label(), x.schemaCtr, cl.text)})
+				continue
+			}
+			st.assume(x.evalBool(st, env, cl.expr))
 		}
 		if ct.trusted != "" {
 			x.note("trusted contract " + ct.label() + ": " + ct.trusted)
@@ -358,6 +382,8 @@ func (x *Exec) verifyContract(ct *Contract) (err error) {
 		fmt.Sscanf(v, "%d", &x.mergeCallMax)
 	}
 	x.safety = ct.opts["safety"] != ""
+	x.splitGoals = ct.opts["nosplitgoal"] == ""
+	x.trigQuadrants = ct.opts["trig-quadrants"] != ""
 	x.maxPaths = 20000
 	x.opaque = map[string]bool{}
 	if v, ok := ct.opts["opaque"]; ok {
@@ -458,17 +484,80 @@ func (x *Exec) verifyContract(ct *Contract) (err error) {
 			fail("no returning path in %s", fn)
 		}
 	}
-	// lets (forking)
-	for _, l := range ct.lets {
-		var next []finalState
-		for _, f := range finals {
-			for _, so := range x.evalLetFork(f.st, f.env, l.expr) {
-				e3 := f.env.child()
-				e3.vars[l.name] = so.val
-				next = append(next, finalState{so.st, e3})
+	// proof script in source order: let (forking), assert, use, generalize
+	for _, sst := range ct.script {
+		switch sst.kind {
+		case "let":
+			var next []finalState
+			for _, f := range finals {
+				for _, so := range x.evalLetFork(f.st, f.env, sst.let.expr) {
+					e3 := f.env.child()
+					e3.vars[sst.let.name] = so.val
+					next = append(next, finalState{so.st, e3})
+				}
+			}
+			finals = next
+		case "assert":
+			x.specMode++
+			for _, f := range finals {
+				if f.st.infeasible() {
+					continue
+				}
+				x.curEnv = f.env
+				cl := sst.clause
+				t := x.evalClause(f.st, f.env, cl)
+				lbl := cl.label
+				if lbl == "" {
+					for k, c2 := range ct.asserts {
+						if c2 == cl {
+							lbl = fmt.Sprintf("%d", k)
+						}
+					}
+				}
+				x.oblige(f.st, "assert."+lbl, t, cl.text)
+				f.st.assume(t)
+			}
+			x.specMode--
+		case "use":
+			lem := x.lemmaByName[ct.pkg+"."+sst.name]
+			if lem == nil {
+				fail("use of unknown lemma %s", sst.name)
+			}
+			if len(lem.params) != len(sst.args) {
+				fail("lemma %s takes %d arguments", sst.name, len(lem.params))
+			}
+			x.usedLemmas[lem.label()] = true
+			x.specMode++
+			for _, f := range finals {
+				le := &Env{vars: map[string]Value{}, pkg: f.env.pkg}
+				for i, p := range lem.params {
+					val := x.eval(f.st, f.env, sst.args[i])
+					if p.typ == "real" || p.typ == "float64" {
+						val = x.coerceTo(val, types.Typ[types.Float64])
+					}
+					le.vars[p.name] = val
+				}
+				var pre, post []*Term
+				for _, cl := range lem.requires {
+					pre = append(pre, x.evalBool(f.st, le, cl.expr))
+				}
+				for _, cl := range lem.ensures {
+					if len(cl.vars) > 0 {
+						fail("lemma %s has a quantified conclusion", sst.name)
+					}
+					post = append(post, x.evalBool(f.st, le, cl.expr))
+				}
+				f.st.assume(mkImplies(mkAnd(pre...), mkAnd(post...)))
+			}
+			x.specMode--
+		case "generalize":
+			for i := range finals {
+				x.generalize(finals[i].st, finals[i].env, sst.name)
 			}
 		}
-		finals = next
+	}
+	if len(finals) == 0 && len(ct.ensures) > 0 {
+		fail("no path reaches the postconditions of %s (vacuous contract)", ct.label())
 	}
 	x.specMode++
 	defer func() { x.specMode-- }()
@@ -476,11 +565,6 @@ func (x *Exec) verifyContract(ct *Contract) (err error) {
 		x.curEnv = f.env
 		if f.st.infeasible() {
 			continue
-		}
-		for k, cl := range ct.asserts {
-			t := x.evalClause(f.st, f.env, cl)
-			x.oblige(f.st, fmt.Sprintf("assert.%d", k), t, cl.text)
-			f.st.assume(t)
 		}
 		for k, cl := range ct.ensures {
 			lbl := cl.label
@@ -551,6 +635,18 @@ func (x *Exec) evalLetFork(st *State, env *Env, e Expr) []specOut {
 		}
 		if !isPkg {
 			recv := x.eval(st, env, sel.x)
+			if x.isNilRecv(recv) {
+				// e.g. constructor error path returning a nil shape: nothing to evaluate on this path
+				x.specMode--
+				return nil
+			}
+			if f, ok := x.funcField(st, recv, sel.name); ok {
+				if f.fn != nil {
+					x.coerceArgs(args, f.fn.Signature)
+				}
+				run(func() []Out { return x.callClosure(st, f, args, 1) })
+				goto done
+			}
 			run(func() []Out { return x.methodOuts(st, recv, sel.name, args) })
 			goto done
 		}
@@ -582,6 +678,16 @@ done:
 		res = append(res, specOut{o.st, v})
 	}
 	return res
+}
+
+func (x *Exec) isNilRecv(v Value) bool {
+	switch t := v.(type) {
+	case *Iface:
+		return t.dyn == nil
+	case *Ptr:
+		return t.cell == nil
+	}
+	return false
 }
 
 func (x *Exec) methodOuts(st *State, recv Value, name string, args []Value) []Out {
@@ -683,4 +789,171 @@ func sortedKeys(m map[string]bool) []string {
 	}
 	sort.Strings(out)
 	return out
+}
+
+// splitGoal: conjunctions (also under an implication / disjunction) are
+// proved conjunct by conjunct.
+func splitGoal(g *Term, depth int) []*Term {
+	if depth > 3 {
+		return []*Term{g}
+	}
+	if g.op == "and" {
+		var out []*Term
+		for _, a := range g.args {
+			out = append(out, splitGoal(a, depth+1)...)
+		}
+		return out
+	}
+	if g.op == "or" {
+		for i, a := range g.args {
+			if a.op == "and" {
+				var rest []*Term
+				rest = append(rest, g.args[:i]...)
+				rest = append(rest, g.args[i+1:]...)
+				var out []*Term
+				for _, b := range a.args {
+					out = append(out, splitGoal(mkOr(append(append([]*Term{}, rest...), b)...), depth+1)...)
+				}
+				if len(out) <= 16 {
+					return out
+				}
+				return []*Term{g}
+			}
+		}
+	}
+	return []*Term{g}
+}
+
+// generalize replaces the (compound) component terms of variable name by
+// fresh variables everywhere in the state: later obligations may only use
+// what has been asserted about it so far.
+func (x *Exec) generalize(st *State, env *Env, name string) {
+	val, ok := env.lookup(name)
+	if !ok {
+		fail("generalize: unknown variable %s", name)
+	}
+	var leaves []*Term
+	if !flatten(val, &leaves) {
+		fail("generalize: %s is not a scalar aggregate", name)
+	}
+	m := map[int]*Term{}
+	for i, t := range leaves {
+		// strip cheap wrappers so that -l, 2*l, l+1 stay related to l
+		for {
+			if t.op == "neg" {
+				t = t.args[0]
+				continue
+			}
+			if t.op == "*" && t.args[0].isConst() {
+				t = t.args[1]
+				continue
+			}
+			if (t.op == "+" || t.op == "-") && t.args[1].isConst() {
+				t = t.args[0]
+				continue
+			}
+			if t.op == "+" && t.args[0].isConst() {
+				t = t.args[1]
+				continue
+			}
+			break
+		}
+		if t.op == "v" || t.op == "c" {
+			continue
+		}
+		if _, done := m[t.id]; done {
+			continue
+		}
+		m[t.id] = freshVar(fmt.Sprintf("gen$%s.%d", name, i), t.sort)
+	}
+	if len(m) == 0 {
+		return
+	}
+	cache := map[int]*Term{}
+	rep := func(t *Term) *Term { return replaceTerms(t, m, cache) }
+	npc := make([]*Term, len(st.pc))
+	for i, t := range st.pc {
+		npc[i] = rep(t)
+	}
+	st.pc = npc
+	nax := make([]*Term, len(st.ax))
+	for i, t := range st.ax {
+		nax[i] = rep(t)
+	}
+	st.ax = nax
+	apps := make([]appRec, len(st.apps))
+	for i, a := range st.apps {
+		na := appRec{fn: a.fn, res: rep(a.res)}
+		for _, t := range a.args {
+			na.args = append(na.args, rep(t))
+		}
+		apps[i] = na
+	}
+	st.apps = apps
+	// flatten the visible environment into a private copy (parents are shared between paths)
+	flat := map[string]Value{}
+	var chain []*Env
+	for c := env; c != nil; c = c.parent {
+		chain = append(chain, c)
+	}
+	for i := len(chain) - 1; i >= 0; i-- {
+		for k, v := range chain[i].vars {
+			flat[k] = replaceValue(v, rep)
+		}
+	}
+	env.vars = flat
+	env.parent = nil
+	for c, v := range st.store {
+		st.store[c] = replaceValue(v, rep)
+	}
+}
+
+func replaceValue(v Value, rep func(*Term) *Term) Value {
+	switch t := v.(type) {
+	case *Term:
+		return rep(t)
+	case *Tuple:
+		el := make([]Value, len(t.el))
+		ch := false
+		for i, e := range t.el {
+			el[i] = replaceValue(e, rep)
+			if el[i] != e {
+				ch = true
+			}
+		}
+		if !ch {
+			return v
+		}
+		return &Tuple{typ: t.typ, el: el}
+	}
+	return v
+}
+
+func replaceTerms(t *Term, m map[int]*Term, cache map[int]*Term) *Term {
+	if r, ok := m[t.id]; ok {
+		return r
+	}
+	if r, ok := cache[t.id]; ok {
+		return r
+	}
+	var r *Term
+	if len(t.args) == 0 {
+		r = t
+	} else {
+		args := make([]*Term, len(t.args))
+		ch := false
+		for i, a := range t.args {
+			args[i] = replaceTerms(a, m, cache)
+			if args[i] != a {
+				ch = true
+			}
+		}
+		if ch {
+			r = rebuild(t, args)
+		} else {
+			r = t
+		}
+	}
+	cache[t.id] = r
+	return r
 }
